@@ -53,6 +53,7 @@ var polluters = []struct{ name, src string }{
 	{"helper-args-edited", `var p = {"a":"?x"}; var m = {"a":"tacos"}; var b = {}; var r = _.match(p, m, b); p.a = 1; m.a = 2; b.z = 3; return _.bindings;`},
 	{"props-shared-second-path", `_.props.s2.k = 99; _.props.lst[1].z = 1; _.props.lst[1].arr.push(2); return _.bindings;`},
 	{"bindings-permanent-nested", `_.bindings["cfg!"].limits.max = 99; _.bindings["cfg!"].hosts[0] = "x"; _.bindings["cfg!"].added = 1; return _.bindings;`},
+	{"bindings-go-typed", `if (_.bindings.samples) { _.bindings.samples[0] = 99; _.bindings.weights.a = 7; _.bindings.weights.b = 1; _.bindings.points[0].x = 5; } return _.bindings;`},
 	{"define-getter", `Object.defineProperty(Object.prototype, "sneaky", {get: function() { return 1; }}); return _.bindings;`},
 }
 
@@ -93,7 +94,10 @@ type IsoOp struct {
 	// calling the interpreter directly.
 	ViaAction bool `json:"viaAction,omitempty"`
 	// Perm: which permanent ('!') bindings the caller's bindings hold:
-	// 0 "cfg!", 1 none, 2 "cfg!" and "id!"
+	// 0 "cfg!", 1 none, 2 "cfg!" and "id!"; 3 (polluters only): what a Go
+	// host can leave in a machine - typed slices and maps and a number
+	// JSON has no notation for (0/0); a script may not run on those at
+	// all, but whether it does or not, the caller's values stay as they are
 	Perm int `json:"perm,omitempty"`
 }
 
@@ -122,6 +126,9 @@ func genIso(t *rapid.T) IsoCase {
 		op.Props = rapid.SampledFrom([]int{0, 0, 0, 1, 2}).Draw(t, fmt.Sprintf("props%d", i))
 		op.ViaAction = rapid.Bool().Draw(t, fmt.Sprintf("via%d", i))
 		op.Perm = rapid.SampledFrom([]int{0, 0, 1, 2}).Draw(t, fmt.Sprintf("perm%d", i))
+		if op.Polluter >= 0 && rapid.IntRange(0, 5).Draw(t, fmt.Sprintf("host%d", i)) == 0 {
+			op.Perm = 3
+		}
 		c.Ops = append(c.Ops, op)
 	}
 	// always end with a probe
@@ -145,9 +152,20 @@ func inputBindingsPerm(perm int) match.Bindings {
 		delete(bs, "cfg!")
 	case 2:
 		bs["id!"] = "A"
+	case 3:
+		zero := 0.0
+		bs["samples"] = []float64{1, 2, 3}
+		bs["weights"] = map[string]float64{"a": 0.5}
+		bs["points"] = []map[string]interface{}{{"x": 1.0}}
+		if hostNaN {
+			bs["mean"] = zero / zero
+		}
 	}
 	return bs
 }
+
+// hostNaN: whether mode-3 bindings hold a NaN (always, outside experiments)
+var hostNaN = true
 
 func inputPropsMode(mode int) core.StepProps {
 	switch mode {
@@ -341,6 +359,12 @@ func checkIso(c IsoCase) (v ev.Verdict) {
 	}
 	for p := range polluted {
 		v.Class("polluter:" + p)
+	}
+	for _, op := range c.Ops {
+		if op.Perm == 3 {
+			v.Class("host-typed-bindings")
+			break
+		}
 	}
 	v.NonTrivial = len(polluted) > 0 && probesAfter > 0
 	return
